@@ -4,7 +4,7 @@ registered checks against each, using a scratch worktree through VERIF_REPO.  Us
 Each seed dir is /tmp/seed_<ID>/SEED/<X>; results go to /verif/seeded/<ID>-<X>/."""
 import sys, os, json, subprocess, shutil, time
 ROOT = os.path.dirname(os.path.dirname(os.path.abspath(__file__)))
-WT = "/tmp/seedwt"
+WT = os.environ.get("SEED_WT", "/tmp/seedwt")
 
 def sh(cmd, cwd=None, timeout=3600, env=None):
     p = subprocess.run(cmd, shell=True, cwd=cwd, capture_output=True, text=True, timeout=timeout, env=env)
@@ -19,7 +19,7 @@ def main():
     for sd in sys.argv[1:]:
         sd = sd.rstrip("/")
         wt = os.path.dirname(os.path.dirname(sd))          # /tmp/seed_C07
-        pid = os.path.basename(wt).split("_")[1]
+        pid = os.path.basename(wt).split("_")[1] if "_" in os.path.basename(wt) else os.path.basename(wt)   # /tmp/seed_C07 or /tmp/seed3/C07
         x = os.path.basename(sd)
         out = f"{ROOT}/seeded/{pid}-{x}"
         os.makedirs(out, exist_ok=True)
@@ -36,14 +36,14 @@ def main():
             if rc != 0:
                 res["error"] = "patch does not apply: " + o[-300:]
             else:
-                rc, o = sh("cargo test --workspace --no-fail-fast --offline 2>&1 | grep -E '^test result|FAILED|error' ", cwd=wt)
+                rc, o = sh("cargo test --workspace --no-fail-fast --offline 2>&1 | grep -E '^test result|FAILED|error' ", cwd=wt, env=dict(os.environ, CARGO_TARGET_DIR=wt + "/target"))
                 res["suite_with_change"] = [l for l in o.splitlines() if l.startswith("test result")]
                 res["suite_passes_with_change"] = ("FAILED" not in o and "error" not in o and any("57 passed" in l for l in o.splitlines()) and any("4 passed" in l for l in o.splitlines()))
-                rc, o = sh("sh SEED/%s/demo/run.sh" % x, cwd=wt)
+                rc, o = sh("bash SEED/%s/demo/run.sh %s" % (x, wt), cwd=wt, env=dict(os.environ, CARGO_TARGET_DIR=wt + "/target"))
                 res["demo_exit_with_change"] = rc
                 sh("git checkout -- . ", cwd=wt)
                 sh("git clean -fdq lib/tests lib/src bin server 2>/dev/null", cwd=wt)
-                rc, o = sh("sh SEED/%s/demo/run.sh" % x, cwd=wt)
+                rc, o = sh("bash SEED/%s/demo/run.sh %s" % (x, wt), cwd=wt, env=dict(os.environ, CARGO_TARGET_DIR=wt + "/target"))
                 res["demo_exit_without_change"] = rc
                 sh("git checkout -- . ", cwd=wt)
                 sh("git clean -fdq lib/tests lib/src 2>/dev/null", cwd=wt)
